@@ -36,13 +36,14 @@ class _Bar(object):
 def build(S, cfg, dt, tf, outs, adapt_vals, log):
     """Construct the real Solver with logging stubs."""
     calls = [0]
+    holder = {}
 
     class Integ(object):
         def initial_acceleration(self, t, dt_):
             log.append(("init_acc",))
 
         def step(self, t, dt_):
-            log.append(("step", t, dt_))
+            log.append(("step", t, dt_, holder["s"]._damping_factor))
 
         def compute_time_step(self, dt_, cfl):
             i = calls[0]
@@ -56,6 +57,7 @@ def build(S, cfg, dt, tf, outs, adapt_vals, log):
     s = S.Solver(dim=1, integrator=Integ(), kernel=None, dt=dt, tf=tf,
                  n_damp=cfg["n_damp"], adaptive_timestep=cfg["adaptive"],
                  output_at_times=oat if len(outs) else (), pfreq=cfg["pfreq"])
+    holder["s"] = s
     s.rank = 1                      # skips '%f' formatting of the debug log
     s.max_steps = cfg["K"]
     s.particles = []
@@ -95,7 +97,7 @@ def judge_concrete(cfg, dt, tf, outs, log, s):
     by_time = s.count < cfg["K"] or abs(s.t - tf) <= eps
     if by_time and abs(s.t - tf) > eps:
         return "ended at t=%r, tf=%r" % (s.t, tf)
-    for (_, t, d) in steps:
+    for (_, t, d, _f) in steps:
         if not d > 0:
             return "non-positive step %r at t=%r" % (d, t)
     # nominal step bound
@@ -107,7 +109,7 @@ def judge_concrete(cfg, dt, tf, outs, log, s):
     for T in outs:
         if not (0 < T < tf):
             continue
-        for (_, t, d) in steps:
+        for (_, t, d, _f) in steps:
             if t < T - 1e-7 * tf and t + d > T + 1e-7 * tf:
                 return "step from %r to %r jumps over the requested output " \
                        "time %r" % (t, t + d, T)
@@ -115,13 +117,17 @@ def judge_concrete(cfg, dt, tf, outs, log, s):
         if reached and not any(abs(e[1] - T) <= eps for e in dumps):
             return "no dump at the requested time %r" % T
     cnt = 0
-    for (_, t, d) in steps:
+    for (_, t, d, _f) in steps:
         cnt += 1
         if cnt % cfg["pfreq"] == 0 and cnt < len(steps):
             if not any(e[2] == cnt for e in dumps):
                 return "no dump at iteration %d (pfreq=%d)" % (cnt,
                                                               cfg["pfreq"])
-    if not cfg["adaptive"] and cfg["n_damp"] == 0:
+    if not cfg["adaptive"]:
+        for (_, t, d, f) in steps:
+            if d > dt * f + 1.0001e-9 * tf:
+                return "step %r at t=%r exceeds the damped nominal %r" % (
+                    d, t, dt * f)
         for e in dumps:
             if e[1] + dt <= tf * (1 - 1e-7) and \
                     abs(e[3]["dt"] - dt) > 1.0001e-9 * tf:
@@ -283,7 +289,7 @@ def unit_solve(cfg, timeout_ms=30000, deadline_s=600):
             # 6. recorded dt is the nominal undamped one (except where the
             #    next step is the one stretched/shortened to land on tf),
             #    and no step exceeds the nominal dt by more than epsilon
-            if not cfg["adaptive"] and cfg["n_damp"] == 0:
+            if not cfg["adaptive"]:
                 claim(c, tag + ": solver_data['dt'] is the nominal dt at "
                       "every dump not adjacent to the final landing step",
                       z3.And(*[z3.Implies(
@@ -292,8 +298,10 @@ def unit_solve(cfg, timeout_ms=30000, deadline_s=600):
                                  dt.t - to_real(e[3]["dt"]) <= M9))
                           for e in dumps]),
                       "recorded_dt")
-                claim(c, tag + ": no step exceeds the nominal dt (+1e-9 tf)",
-                      z3.And(*[to_real(e[2]) <= dt.t + M9 for e in steps])
+                claim(c, tag + ": no step exceeds the (damped) nominal dt "
+                      "(+1e-9 tf)",
+                      z3.And(*[to_real(e[2]) <= dt.t * to_real(e[3]) + M9
+                               for e in steps])
                       if steps else z3.BoolVal(True), "step_bound")
             # 7. callbacks exactly once per step, in order
             seq = [e[0] for e in log if e[0] in ("pre", "step", "post")]
@@ -320,6 +328,7 @@ def configs(t):
         cfgs.append(dict(K=K, pfreq=1, nout=1, n_damp=0, adaptive=False,
                          last_is_tf=True))
         cfgs.append(dict(K=K, pfreq=3, nout=1, n_damp=2, adaptive=False))
+        cfgs.append(dict(K=K, pfreq=1, nout=1, n_damp=3, adaptive=False))
         cfgs.append(dict(K=K, pfreq=2, nout=1 if K > 2 else 0, n_damp=0,
                          adaptive=True, adapt=(1,) * (K + 2)))
         cfgs.append(dict(K=K, pfreq=2, nout=0, n_damp=0, adaptive=True,
